@@ -557,7 +557,7 @@ struct array_iterator  // NOLINT(fuchsia-multiple-inheritance) for facades
 	#endif
 
 	BOOST_MULTI_HD constexpr auto operator+ (difference_type n) const -> array_iterator {array_iterator ret{*this}; ret += n; return ret;}
-	BOOST_MULTI_HD constexpr auto operator[](difference_type n) const -> subarray<element, D-1, element_ptr> {return *((*this) + n);}
+	BOOST_MULTI_HD constexpr auto operator[](difference_type n) const -> reference {return *((*this) + n);}
 
 	template<bool OtherIsConst, 
 		std::enable_if_t<(IsConst != OtherIsConst), int> =0>  // NOLINT(modernize-use-constraints)  TODO(correaa) for C++20
